@@ -434,6 +434,28 @@ def blocks_separate(body, blocks, site, start=0):
     return site not in r
 
 
+def region_always_errs(body, blocks):
+    """Every path that enters `blocks` ends in a `_0 = Err(..)` assignment made inside the
+    region: avoiding those assignments no return is reachable from the region's entries."""
+    blocks = set(blocks)
+    if not blocks:
+        return False
+    errb = set()
+    for x in blocks:
+        for s in body.blocks[x]["stmts"]:
+            if s["k"] == "assign" and s["place"]["l"] == 0 and not s["place"]["p"] and s["rv"]["k"] == "agg" and \
+                    s["rv"].get("adt") == "std::result::Result" and s["rv"]["variant"] == "Err":
+                errb.add(x)
+    if not errb:
+        return False
+    entries = [x for x in blocks if any(p not in blocks for p in body.preds()[x])] or [min(blocks)]
+    for e in entries:
+        for x in reach_avoiding(body, e, avoid_blocks=errb):
+            if body.blocks[x]["term"]["k"] == "return":
+                return False
+    return True
+
+
 def sccs(nodes, succ):
     """Tarjan; succ: node -> iterable of nodes. Returns list of lists."""
     index = {}
